@@ -28,7 +28,7 @@ func init() {
 	c14Docs = append(c14Docs[:8:8], append([]string{big}, c14Docs[8:]...)...)
 }
 
-var c14Raw = []string{"raw:\ufeff{\"a\":1}", "raw:\ufeffa: 1\n", "raw:{invalid", "raw:a: [1, 2]\nb: x\n", "raw:msg: |\n  line one\n  line two\n", "raw:  a: 1\n  b:\n  - x\n", "raw:\n\n[1,2]\n\n"}
+var c14Raw = []string{"raw:{\"a\":\"\xff\xfe\"}", "raw:\xff\xfe{\"a\":1}", "raw:\ufeff{\"a\":1}", "raw:\ufeffa: 1\n", "raw:{invalid", "raw:a: [1, 2]\nb: x\n", "raw:msg: |\n  line one\n  line two\n", "raw:  a: 1\n  b:\n  - x\n", "raw:\n\n[1,2]\n\n"}
 
 type c14Flags struct {
 	Arrays    string // "", "-set", "-mset", "-setkeys id"
@@ -497,7 +497,13 @@ func runC14Diff(c *engine.Case) engine.Result {
 	}
 	// the same bytes arrive through a pipe, a regular file or (when empty) /dev/null, in rotation over the cases
 	stdinHow := []string{"pipe", "file", "null"}[(len(c.A)+len(c.B)+len(c.X))%3]
-	got := cli.RunWith(dir, bin, args, stdin, stdinHow)
+	// every other case runs in a hostile environment (NO_COLOR, TERM=dumb, Turkish locale, no HOME, ...): the
+	// contract does not mention the environment, so nothing may change
+	var env []string
+	if (len(c.A)+len(c.B)+len(c.X))%2 == 1 {
+		env = cli.HostileEnv
+	}
+	got := cli.RunEnv(dir, bin, args, stdin, stdinHow, env)
 	res.Transitions++
 	res.Traces++
 	want := modelDiff(lib, f, aText, bText)
@@ -587,7 +593,7 @@ func runC14Diff(c *engine.Case) engine.Result {
 	} else {
 		pargs = append(pargs, fd, fa)
 	}
-	pgot := cli.RunWith(dir, bin, pargs, pStdin, stdinHow)
+	pgot := cli.RunEnv(dir, bin, pargs, pStdin, stdinHow, env)
 	if f.Out && pgot.Exit == 0 {
 		if pgot.Stdout != "" {
 			res.Violation = fmt.Sprintf("jd -p -o printed to stdout: %q | flags: -p %s %s", pgot.Stdout, strings.Join(extra, " "), c.X)
